@@ -25,7 +25,7 @@ DItemC == {[k |-> "none"]} \cup {Grp(k, o[1], o[2], <<El("c", "string", 1, 1), E
           {Grp(k, o[1], o[2], << Grp("seq", 1, 1, <<El("c", "string", 1, 1), El("d", "string", 1, 1)>>),
                                  Grp("seq", 1, 1, <<El("f", "string", 1, 1), El("g", "string", m, 1)>>) >>) :
                                    k \in {"seq", "choice"}, o \in {<<1, 1>>, <<0, 1>>, <<1, U>>}, m \in {0, 1}}
-Slots == << {"seq", "choice"}, DOccs, DItemA, DItemB, DItemC, 1..7, {"model", "mixed", "any"}, 0..MaxDocIdx >>
+Slots == << {"seq", "choice"}, DOccs, DItemA, DItemB, DItemC, 1..8, {"model", "mixed", "any"}, 0..MaxDocIdx >>
 NSlots == Len(Slots)
 Init == parts = <<>>
 Next == Len(parts) < NSlots /\ \E c \in Slots[Len(parts) + 1] : parts' = Append(parts, c)
@@ -46,7 +46,8 @@ Corpus == {
   <<"seq", <<1, 1>>, El("a", "string", 1, 1), El("b", "string", 0, 1), CC("choice", <<1, 1>>, 1), 3, "model">>,       \* (a, b?, ((c,d)|(f,g)))
   <<"seq", <<1, 1>>, El("a", "string", 1, 1), El("b", "string", 0, 1), CC("choice", <<1, U>>, 0), 1, "model">>,
   <<"choice", <<1, U>>, El("a", "string", 1, 1), BGrp("choice", <<1, 1>>, 1), CC("seq", <<0, 1>>, 1), 1, "model">>,
-  <<"seq", <<1, 1>>, El("a", "EMPTY", 0, 1), BGrp("seq", <<0, U>>, 0), Seq2("choice", <<1, U>>, 1), 7, "model">> }
+  <<"seq", <<1, 1>>, El("a", "EMPTY", 0, 1), BGrp("seq", <<0, U>>, 0), Seq2("choice", <<1, U>>, 1), 7, "model">>,
+  <<"seq", <<1, 1>>, El("a", "string", 1, 1), El("b", "string", 0, 1), [k |-> "none"], 8, "model">> }
 InitCorpus == \E c \in Corpus, i \in 0..MaxDocIdx : parts = Append(c, i)
 
 Root == Grp(parts[1], parts[2][1], parts[2][2], <<parts[3], parts[4]>> \o (IF parts[5].k = "none" THEN <<>> ELSE <<parts[5]>>))
@@ -58,6 +59,8 @@ Attrs == CASE parts[6] = 1 -> <<>>
            [] parts[6] = 5 -> << [name |-> "r", tp |-> "IDREF", mode |-> "IMPLIED", value |-> NONE], [name |-> "id", tp |-> "ID", mode |-> "IMPLIED", value |-> NONE] >>
            \* namespaces the DTD way: #FIXED xmlns attributes (a default namespace; two prefixes used by attributes)
            [] parts[6] = 6 -> << [name |-> "xmlns", tp |-> "CDATA", mode |-> "FIXED", value |-> "urn:d"], [name |-> "n", tp |-> "NMTOKEN", mode |-> "IMPLIED", value |-> NONE] >>
+           \* a declared default that is the EMPTY string is still a default
+           [] parts[6] = 8 -> << [name |-> "sfx", tp |-> "CDATA", mode |-> "DEFAULT", value |-> ""], [name |-> "kind", tp |-> "(x|y)", mode |-> "DEFAULT", value |-> "x"] >>
            [] parts[6] = 7 -> << [name |-> "id", tp |-> "CDATA", mode |-> "REQUIRED", value |-> NONE],
                                  [name |-> "x:lang", tp |-> "CDATA", mode |-> "IMPLIED", value |-> NONE], [name |-> "y:rev", tp |-> "NMTOKEN", mode |-> "IMPLIED", value |-> NONE],
                                  [name |-> "xmlns:x", tp |-> "CDATA", mode |-> "FIXED", value |-> "urn:x"], [name |-> "xmlns:y", tp |-> "CDATA", mode |-> "FIXED", value |-> "urn:y"] >>
